@@ -203,9 +203,11 @@ func globalsSnapshot() string {
 	}
 	sort.Strings(names)
 	var sb strings.Builder
+	ref.DumpSkipSync = true
 	for _, k := range names {
 		sb.WriteString(k + "=" + ref.Dump(g[k]) + "\n")
 	}
+	ref.DumpSkipSync = false
 	return sb.String()
 }
 
